@@ -10,6 +10,7 @@ import (
 
 	"github.com/anishathalye/porcupine"
 	"src.elv.sh/pkg/eval"
+	"src.elv.sh/pkg/eval/vars"
 	"src.elv.sh/pkg/parse"
 	"src.elv.sh/zzverif/simrt"
 )
@@ -105,6 +106,11 @@ func runC39(c *Ctx) {
 					parts = append(parts, "put $"+ref)
 				}
 				parts = append(parts, "use m1", "echo $m1:x")
+			case k == 8:
+				// a definition published through the Go API (what edit:add-var does)
+				op.Kind = "extend"
+				op.Defs = append(op.Defs, name)
+				allNames = append(allNames, name)
 			default:
 				op.Kind = "call"
 			}
@@ -116,6 +122,7 @@ func runC39(c *Ctx) {
 
 	ticks := map[string]int{}
 	useOK := map[string]int{}
+	var lost []string
 	var races []string
 	checked, cross := 0, 0
 	c.Bubble(func() {
@@ -156,6 +163,8 @@ func runC39(c *Ctx) {
 						switch op.Kind {
 						case "eval":
 							e = ev.Eval(parse.Source{Name: fmt.Sprintf("[t%d]", ti), Code: op.Code}, eval.EvalCfg{Ports: ports})
+						case "extend":
+							ev.ExtendGlobal(eval.BuildNs().AddVar(op.Defs[0], vars.NewReadOnly("v"+op.Defs[0])))
 						case "check":
 							_, _, e = ev.Check(parse.Source{Name: "[check]", Code: op.Code}, nil)
 						case "call":
@@ -182,6 +191,22 @@ func runC39(c *Ctx) {
 			}
 			for range cs.Tasks {
 				<-done
+			}
+			// Definitions are never lost: whatever a completed operation
+			// published must be in the global namespace at the end.
+			g := ev.Global()
+			for _, task := range cs.Tasks {
+				for _, op := range task {
+					published := op.Kind == "extend" || (op.Kind == "eval" && (op.OK || !strings.Contains(op.Err, "not found")))
+					if !published {
+						continue
+					}
+					for _, d := range op.Defs {
+						if !g.HasKeyString(d) {
+							lost = append(lost, fmt.Sprintf("%s (defined by task %d's %s %q)", d, op.Task, op.Kind, op.Code))
+						}
+					}
+				}
 			}
 		})
 		v := s.Run()
@@ -219,11 +244,14 @@ func runC39(c *Ctx) {
 			}
 		}
 	}
+	if len(lost) > 0 {
+		c.Violation("lost-definition", "%d global definitions published by completed operations are missing from the global namespace at the end (lost update): %s", len(lost), strings.Join(lost, "; "))
+	}
 	// 3a. evaluations behave as in some sequential order w.r.t. the global namespace
 	var ops []porcupine.Operation
 	for _, task := range cs.Tasks {
 		for _, op := range task {
-			if op.Kind != "eval" {
+			if op.Kind != "eval" && op.Kind != "extend" {
 				continue
 			}
 			ops = append(ops, porcupine.Operation{ClientId: op.Task, Input: op, Call: op.Call, Output: op, Return: op.Ret})
